@@ -581,7 +581,10 @@ macro_rules! wrap_impl_float {
                 fn wrapped(self, upper: Self) -> Self {
                     assert!(upper > Self::zero());
                     // assert_relative_ne!(upper, Self::zero());
-                    self - num_traits::Float::floor(self/upper) * upper
+                    // NOTE: Not `self - (self/upper).floor() * upper`: for a huge `self` and a small `upper`
+                    // the quotient or the product overflows and the result is infinite.
+                    let r = self % upper;
+                    if r < Self::zero() { r + upper } else { r }
                 }
                 fn wrapped_between(self, lower: Self, upper: Self) -> Self {
                     assert!(lower < upper);
